@@ -2,6 +2,7 @@ package sim
 
 import (
 	"fmt"
+	"strings"
 	"testing"
 )
 
@@ -157,6 +158,16 @@ func genHistory(t *Tape, k *Knobs, m mix, n int) []Step {
 				kv = append(kv, "redirect", "reg:1")
 			}
 			s := st("authz", c, 0, kv...)
+			// the resource owner may grant only part of what was requested
+			if t.Chance(20) {
+				req := splitNonEmpty(s.P["scope"])
+				if len(req) > 1 {
+					s.P["grant"] = strings.Join(req[:1+t.Intn(len(req)-1)], " ")
+				}
+			}
+			if a := splitNonEmpty(s.P["aud"]); len(a) > 1 && t.Chance(40) {
+				s.P["grant_aud"] = a[t.Intn(len(a))]
+			}
 			if t.Weighted([]int{m.authz, m.hybrid}) == 1 {
 				hybrid = true
 				s.P["rt"] = t.Pick([]string{"code id_token", "code token", "code id_token token"})
@@ -241,7 +252,7 @@ func genHistory(t *Tape, k *Knobs, m mix, n int) []Step {
 				s.A = "bearer_same"
 			}
 			if t.Chance(25) {
-				s.P = map[string]string{"scope": t.Pick([]string{"photos", "users.read", "admin", "openid photos", "mail.read"})}
+				s.P = map[string]string{"scope": t.Pick([]string{"photos", "users.read", "admin", "openid photos", "mail.read", "offline", "offline_access", "openid"})}
 			}
 			if t.Chance(m.mutate) {
 				if s.P == nil {
